@@ -204,6 +204,10 @@ def rule_INV(ck, rule="INV"):
             continue
         base = pre_facts(tu, fn, op)
         for name, hyp, concl in state_invariants(tu, fn, "post", "q2", "apost"):
+            if name == "INV-A" and op in ("erase1", "erase2") and not tu.pl.all_fixed_locator and not tu.pl.trivial:
+                # element-wise relocation through the address table (a recurrence): not summarised, see T4
+                ck.rec.count("INV-A_not_decided_nontrivial_varying_erase")
+                continue
             cases = [base]
             if op in ("reserve", "clear", "erase2", "emplace_back", "erase1", "pop_back"):
                 # the pre-state may be empty or not: decide per case so that INV-A / INV-B of the pre-state apply
